@@ -12,6 +12,7 @@ from ..core import fmt, fmt_list, parse_rats, frac, err_kind, close, vclose, flo
 from . import c01
 
 ID = "C03"
+THREADS = True       # part of the cases run concurrently in threads of one interpreter (the schedule dimension)
 MODULES = ["TWV.Properties.C03", "TWV.Tie.Vector"]
 TRANSLATORS = ["t3_vector"]
 RULE = ("(a) the C01 generator (reference matching: n 3..60, three fixed-point modes, 2x2 rules, integer and table exponents) "
